@@ -80,7 +80,12 @@ class OpenAPISchemaResolver(SchemaTypeResolver):
             return self._resolve_one_of(schema, context, required, resolve_underlying)
 
         # Handle named schemas without generation_name (fallback for references)
-        if schema.name and schema.name in self.ref_resolver.schemas:
+        # A property schema carries its JSON key as name: a key spelled like a schema ("Pet": {"type": "string"})
+        # with a primitive type of its own is that primitive, not a reference to the schema
+        is_inline_primitive = schema_type in ("string", "integer", "number", "boolean") and not getattr(
+            schema, "generation_name", None
+        )
+        if schema.name and schema.name in self.ref_resolver.schemas and not is_inline_primitive:
             target_schema = self.ref_resolver.schemas[schema.name]
             # Avoid infinite recursion if it's the same object
             if target_schema is not schema:
